@@ -224,10 +224,13 @@ ENTRY h_shutdown() {
   const int k = KITEMS;
   produce(p, k);
   g_expect_total = k;
+  if (TICKETS == 2) issue_ticket(p);          // a ForceFlush caller is waiting when Shutdown begins: the drain must release it
   bool b = nondet_bool();
   p->Shutdown(std::chrono::microseconds(b ? 0 : 1000));
   VASSERT(fifo_exact(k) && g_size_ok, "Shutdown exports everything produced before it, once, in bounded batches");
   VASSERT(g_shutdown_calls == 1 && g_no_export_after_shutdown, "Shutdown shuts the exporter down exactly once, after the last Export");
+  check_acks(p);
+  VASSERT(g_ack_ok && (TICKETS != 2 || p->synchronization_data_->force_flush_notified_sequence.load() >= g_first_ticket), "Shutdown: a flush ticket that was outstanding is acknowledged by the drain, after the records were exported");
   VASSERT(!g_second_shutdown_returned || g_second_shutdown_ok, "a Shutdown call returns only after everything produced before it was exported and the exporter was shut down (also when another Shutdown is in progress)");
   int batches = g_batches, flushes = g_flush_calls;
   PRODUCE(p, std::unique_ptr<sdkx::Recordable>(new TokRec(99)));
